@@ -118,7 +118,6 @@ m("c14_destination_name_sort", "C14", ND, "        rho_firsts = engine.vcat(\n  
 
 # ---- cross-object state
 m("x_shared_graph_by_name", "C09 C08", N, "        self._graph = nx.DiGraph(name=name)", "        self._graph = _GRAPHS.setdefault(name, nx.DiGraph(name=name))\n\n    global _GRAPHS\n    _GRAPHS = {}")
-m("x_class_level_lookup_cache", "C08", N, "    @cached_property\n    def links_by_name(self) -> dict[str, Link[VarType]]:\n        return {  # type: ignore[var-annotated]\n            link.name: link for _, _, link in self.links\n        }", "    @property\n    def links_by_name(self) -> dict[str, Link[VarType]]:\n        k = len(self._graph.edges)\n        if _LBN.get('k') != k:\n            _LBN['k'] = k\n            _LBN['v'] = {link.name: link for _, _, link in self.links}\n        return _LBN['v']\n\n    global _LBN\n    _LBN = {}")
 
 # ---- BENIGN changes: the property still holds, every check must stay silent (ids start with ok_)
 ALL = "C06 C08 C09 C12 C13 C14 C19"
